@@ -1,3 +1,3 @@
 (* C16 -- all proofs *)
 From PV Require Export C16.Lib C16.ProofsErr C16.ProofsFresh C16.ProofsValid C16.ProofsSeq C16.ProofsRefine
-  C16.ProofsAlone C16.ProofsReads C16.ProofsTables C16.ProofsAlias C16.ProofsCopy.
+  C16.ProofsAlone C16.ProofsReads C16.ProofsTables C16.ProofsAlias C16.ProofsCopy C16.ProofsMgr.
